@@ -229,8 +229,8 @@ class Sched:
         st.line = 0
         st.resumed = False
         self._point(None)  # op start is a pre-emption point (line 0)
-        if not self.notrace:
-            sys.settrace(self._gtrace)
+        # untraced (sweep) operations still get a liveness bound: function calls are counted instead of lines
+        sys.settrace(self._gcount if self.notrace else self._gtrace)
         try:
             try:
                 val = fn()
@@ -250,6 +250,13 @@ class Sched:
             ok = fn.startswith(Y0_DIR) or (self.trace_nx and fn.startswith(NX_CLASSES_DIR))
             self._file_ok[fn] = ok
         return ok
+
+    def _gcount(self, frame: Any, event: str, arg: Any) -> Any:
+        st: _CallerState = self.tl.state
+        st.line += 1
+        if st.line > self.step_budget:
+            raise StepBudgetExceeded
+        return None
 
     def _gtrace(self, frame: Any, event: str, arg: Any) -> Any:
         if event == "call" and self._traced_file(frame.f_code.co_filename):
